@@ -174,6 +174,18 @@ func monitor(rep *emit.Report, c *caseRun) {
 					}
 				}
 			}
+			// C05 / C07: a valid partial of another member of the LIVE group (after a resharing: the new
+			// one, whatever index the member holds in it), for a round in the window, is never refused
+			if s.obs.Rejected && s.obs.Valid && s.tickingAfter && s.obs.LiveBefore >= 0 && s.obs.LiveBefore == s.obs.LiveAfter && s.ev.Round > s.obs.HeadBefore {
+				lg := w.Epochs[s.obs.LiveBefore]
+				next, _ := common.NextRound(s.obs.Now, per, w.Genesis)
+				if idx, err := w.Sch.ThresholdScheme.IndexOf(s.obs.SigBytes); err == nil && s.ev.Round <= next && lg.IsMember(idx) && idx != w.meIn(lg) {
+					rep.Fail("C05-valid-partial-of-live-member-refused", fmt.Sprintf("a valid partial for round %d of member index %d of the live group (epoch %d) was refused", s.ev.Round, idx, s.obs.LiveBefore), in)
+					if s.obs.LiveBefore > 0 {
+						rep.Fail("C07-valid-partial-of-new-group-member-refused", fmt.Sprintf("after the transition a valid partial for round %d of member index %d of the new group was refused", s.ev.Round, idx), in)
+					}
+				}
+			}
 			// C03: a partial that does not verify for exactly the (round, previous signature) it is
 			// labelled with, under the polynomial the node uses, is refused (never cached, never counted)
 			if !s.obs.Rejected && !s.obs.Valid && s.ev.Round > s.obs.HeadBefore {
